@@ -246,6 +246,22 @@ pub fn end() -> Ctx {
 }
 
 pub const STEP_BUDGET_MSG: &str = "cfr-verif: step budget exceeded";
+pub const CANCELLED_MSG: &str = "cfr-verif: execution cancelled by the watchdog";
+
+thread_local! {
+    /// set by the watchdog when it gives up on the execution running on this executor thread:
+    /// every hook then panics, so that an abandoned run-away execution unwinds instead of
+    /// spinning (and allocating) for ever
+    static CANCEL: RefCell<Option<std::sync::Arc<std::sync::atomic::AtomicBool>>> = const { RefCell::new(None) };
+}
+
+pub fn set_cancel_flag(flag: std::sync::Arc<std::sync::atomic::AtomicBool>) {
+    CANCEL.with(|c| *c.borrow_mut() = Some(flag));
+}
+
+pub fn cancelled() -> bool {
+    CANCEL.with(|c| c.borrow().as_ref().map(|f| f.load(std::sync::atomic::Ordering::Relaxed)).unwrap_or(false))
+}
 
 // ---------------------------------------------------------------- chance site (H3)
 
@@ -284,6 +300,9 @@ pub fn chance_rng(vid: usize) -> Option<KeyedRng> {
 }
 
 fn count_draw(c: &mut Ctx) -> bool {
+    if cancelled() {
+        panic!("{}", CANCELLED_MSG);
+    }
     c.stats.draws += 1;
     c.step_budget != 0 && c.stats.draws > c.step_budget
 }
@@ -382,6 +401,9 @@ pub fn player_reset(vid: usize) {
 /// One call per decision-node visit of a traversal. Also the step counter that
 /// turns a hang into a deterministic, replayable failure.
 pub fn visit(kind: u8, player_two: bool, infoset: usize, node_addr: usize) {
+    if cancelled() {
+        panic!("{}", CANCELLED_MSG);
+    }
     let over = CTX.with(|c| {
         let mut c = c.borrow_mut();
         c.stats.visits += 1;
